@@ -64,7 +64,8 @@ def rule_store(ctx):
         v = conn.attrs.get("variables") if isinstance(conn, Obj) else None
         news = [e for e in path.effects if e[0] == "new" and e[1].endswith("variables.Variables")]
         ok = isinstance(v, Obj) and v.cls == ("variables", "Variables") and len(news) == 1 and news[0][5] is v
-        inner = [e for e in path.effects if e[0] == "store" and e[1] is v and isinstance(e[3], Dct)]
+        from ..values import Lst as _Lst
+        inner = [e for e in path.effects if e[0] == "store" and e[1] is v and isinstance(e[3], (Dct, _Lst))]  # its own fresh container
         ok = ok and len(inner) >= 1
         ctx.ob("C15.a", "each connection constructs its own Variables with its own mapping", ok, "fakesnow/conn.py")
         if not ok:
@@ -337,14 +338,22 @@ def rule_set_unset(ctx):
         for tr in traces(prog, kind):
             vars_obj = tr.conn.attrs["variables"]
             from ..execmodel import R
+            from ..values import Lst as _Lst
             mapping = vars_obj.attrs.get(R().variables)
-            sets = [e for e in tr.path.effects if e[0] == "dictset" and e[1] is mapping]
-            pops = [e for e in tr.path.effects if e[0] == "call" and str(e[1]).endswith(".pop")]
+            if isinstance(mapping, Dct):
+                sets = [e for e in tr.path.effects if e[0] == "dictset" and e[1] is mapping]
+                holds_v = "V" in mapping.items
+            else:
+                # another container: what the Variables object holds after the statement (the semantics are C15.k's)
+                stores = [x for x in vars_obj.attrs.values() if isinstance(x, (_Lst, Dct))]
+                recs = [r_ for c_ in stores for r_ in (c_.items if isinstance(c_, _Lst) else c_.items.values())]
+                sets = [("held", None, None, getattr(r_, "attrs", {}).get("value", r_)) for r_ in recs]
+                holds_v = bool(recs)
             nop = tr.engine_sql and "SUCCESS_NOP" in tagof(tr.engine_sql[0])
             if want == "set":
                 ok = tr.path.outcome == "return" and len(sets) == 1 and nop
             else:
-                ok = tr.path.outcome == "return" and nop and ("V" not in (mapping.items if isinstance(mapping, Dct) else {}))
+                ok = tr.path.outcome == "return" and nop and not holds_v
             if want == "set" and sets:
                 val = sets[0][3]
                 dia = val.origin[2] if isinstance(val, Sym) and val.origin and val.origin[0] == "sql" and len(val.origin) > 2 else None
